@@ -511,6 +511,14 @@ func (u *Unit) loopWrites(h *ssa.BasicBlock) (map[string]bool, map[*ssa.Alloc]bo
 						locals[a] = true
 					}
 				}
+			case ssa.CallInstruction:
+				// a variable represented as a local although its address is passed to calls (strings.Builder,
+				// see execAlloc) is written by any call that receives the address
+				for _, arg := range x.Common().Args {
+					if a, ok := arg.(*ssa.Alloc); ok {
+						locals[a] = true
+					}
+				}
 			}
 		}
 	}
